@@ -3,7 +3,7 @@
 # against (and nothing else) under several VERIF_SEED values; prints the changes a seed misses.
 set -u
 seeds=("$@"); [ ${#seeds[@]} -eq 0 ] && seeds=(1 2 3)
-skip="C06_r2_3 C10_r2_2 C19_r2_2 C19_r2_3 C05_r2_2"   # judged not to violate the named property (DESIGN 10); C05_r2_2 stopped violating C05 with fix 18 (a context beyond its storage is refused, no panic)
+skip="C06_r2_3 C10_r2_2 C19_r2_2 C19_r2_3 C05_r2_2 C08_r3_1"   # judged not to violate the named property (DESIGN 10); C05_r2_2 stopped violating C05 with fix 18 (a context beyond its storage is refused, no panic)
 only="${ONLY:-}"
 for d in /verif/seeded/C*_*; do
   name=$(basename $d); id=${name%%_*}
